@@ -363,17 +363,11 @@ func (t *taintSet) call(f *ssa.Function, call *ssa.Call) {
 		name, recv = sc.Name(), cc.Args[0]
 	}
 	if name == "Apply" && recv != nil {
+		var fns []*ssa.Function
 		for _, a := range cc.Args {
-			var fn *ssa.Function
-			switch v := unwrapConv(a).(type) {
-			case *ssa.MakeClosure:
-				fn = v.Fn.(*ssa.Function)
-			case *ssa.Function:
-				fn = v
-			}
-			if fn == nil {
-				continue
-			}
+			fns = append(fns, closureTargets(a, 0)...)
+		}
+		for _, fn := range fns {
 			if t.has(recv) {
 				for _, p := range fn.Params {
 					t.add(p)
@@ -419,4 +413,40 @@ func (t *taintSet) anyArgTainted(call *ssa.Call) bool {
 		}
 	}
 	return false
+}
+
+// closureTargets: the functions a function-typed value can be: a literal or named function, what a library
+// function called here returns (a closure factory), or one of several by phi.
+func closureTargets(v ssa.Value, depth int) []*ssa.Function {
+	if depth > 3 {
+		return nil
+	}
+	switch x := unwrapConv(v).(type) {
+	case *ssa.MakeClosure:
+		if f, ok := x.Fn.(*ssa.Function); ok {
+			return []*ssa.Function{f}
+		}
+	case *ssa.Function:
+		return []*ssa.Function{x}
+	case *ssa.Phi:
+		var out []*ssa.Function
+		for _, e := range x.Edges {
+			out = append(out, closureTargets(e, depth+1)...)
+		}
+		return out
+	case *ssa.Call:
+		if _, isFn := x.Type().Underlying().(*types.Signature); !isFn {
+			return nil
+		}
+		if sc := x.Common().StaticCallee(); sc != nil && isLibFn(sc) {
+			var out []*ssa.Function
+			for _, r := range returnsOf(sc) {
+				if len(r.Results) == 1 {
+					out = append(out, closureTargets(r.Results[0], depth+1)...)
+				}
+			}
+			return out
+		}
+	}
+	return nil
 }
